@@ -5,6 +5,7 @@ def harness_args(run, tier, n, cases):
         ["-pass", "seq", "-seed", run.seed, "-n", nseq, "-tier", tier, "-out", base + ".seq.cases"],
         ["-pass", "hist", "-seed", run.seed, "-n", n, "-tier", tier, "-out", base + ".hist.cases"],
         ["-pass", "block", "-seed", run.seed, "-n", 1, "-tier", tier, "-out", base + ".block.cases"],
+        ["-pass", "armpark", "-seed", run.seed, "-n", 1, "-tier", tier, "-out", base + ".armpark.cases"],
         # last, in its own process: a Close that fails to abort a dial leaves a loop alive for 30 s
         ["-pass", "blackhole", "-seed", run.seed, "-n", 1, "-tier", tier, "-out", base + ".blackhole.cases"],
     ]
@@ -20,10 +21,12 @@ PROP = {
     "harness_args": harness_args,
     "trusted": [
         "e2e rig harness/cmd/c10/lc: every socket and listener is harness-owned (public WithDialer/WithListener over net.Pipe); scripted raw-frame peer; hygiene probes = goroutines whose creator frame is library code in a runtime.Stack dump (polled up to 2 s after a calm Close), Close() seen on every conn/listener handed out, the reconnecting gauge, State(); Open/Close overlap bookkeeping decides which results are judged exactly (solo / calm)",
+        "hook hsms/verif_export_lifecycle_park.go: transport decorator calling the harness at the entry of tr.ArmStart / tr.Start",
         "Hsms/LifecycleSat.v: the verified propositional refutation procedure (unit propagation + splitting, run by vm_compute) behind every invariant-preservation lemma",
     ],
     "assumptions": [
         "atomicity of the LTS steps as read from the code (DESIGN.md Appendix A.3): atomic loads/stores/CAS, publishMu and startGate critical sections, channel operations; lifeMu is the API program counter",
+        "LcLPublish models {re-check shutdown/reconnectGen; ArmStart; cur.Store} as ONE action (the publishMu critical section): the e2e pass armpark (the loop parked at the entry of ArmStart through the verif seam hsms.VerifParkTransport, Close called, loop released; passive/active x HSMS-SS/SECS-I) is the correspondence for that atomic-action assumption; invariant clause 7 (a Stop-sealed generation keeps the start gate sealed) is what a split would break",
         "handlers return, so every bounded join completes: the ErrCloseTimeout path (which deliberately abandons goroutines) is not modelled",
         "transport contract as implemented by hsmsss (Start fails only before TCPUp; Stop = seal, close, join); the SECS-I transport shares the connection core and is exercised by the e2e passes (seq cycles and a quarter of the random histories run secs1.New over the same rig, against a line that is held / dropped / cut but does not speak E4) but is not modelled separately",
         "environment actions (peer connect/drop, dial results, T7/linktest expiry, write errors) are enabled whenever structurally possible - a superset of real behaviours",
